@@ -1,1 +1,2 @@
 import SekaiProofs.Props.C19
+import SekaiProofs.Props.C07
